@@ -168,9 +168,21 @@ Definition run_multi (a : sx) : sx :=
   | _ => sx_err "multi"
   end.
 
+(* c18.conc: (dag root rounds (op ...)) -> (result ...): the operations run
+   CONCURRENTLY on one prover, each repeated [rounds] times.  The prover is
+   read-only after construction, so the model of every operation is the
+   operation alone: the same function as for a sequential history; [rounds]
+   and the schedule do not occur in the model. *)
+Definition run_conc (a : sx) : sx :=
+  match a with
+  | SL [dag; root; SN _; ops] => run_multi (SL [dag; root; ops])
+  | _ => sx_err "conc"
+  end.
+
 (* dispatcher of this file's kinds (private extraction; Dispatch.v has the same lines) *)
 Definition run (kind : string) (a : sx) : sx :=
   if String.eqb kind "c18.proof" then run_proof a
   else if String.eqb kind "c18.key" then run_key a
   else if String.eqb kind "c18.multi" then run_multi a
+  else if String.eqb kind "c18.conc" then run_conc a
   else sx_err "kind".
